@@ -418,6 +418,7 @@ func main() {
 	if !worker {
 		postFull()
 		postFullAdmin()
+		volume()
 		r.Fork(len(cfgs), nil, nil)
 		r.Set("rule", "state key = per (chain, tx) exact ages of last forward / drop / request (harness's own record), phase of the 7-minute purge ticker, queue fill levels; every transition is performed on the real dispatcher goroutine and judged after quiescence")
 		r.Assume("the dispatcher uses only Now and Ticker of the clock interface; ticks are delivered one boundary at a time with quiescence in between (as the mock clock does)")
@@ -548,6 +549,42 @@ func postFullAdmin() {
 			cancel()
 		}
 	}
+}
+
+// volume: more distinct transactions are live in one suppression window than any plausible cap on the
+// dispatcher's memory (2500, the watcher drains its queue): every one is forwarded once, and a repeat of the
+// 1st, the 1024th, the 1025th, the 2000th and the last inside the window is suppressed.
+func volume() {
+	const n = 2500
+	c := config{Name: "volume-2500-transactions", Caps: map[uint16]int{2: 64}}
+	for i := 0; i < n; i++ {
+		c.Alphabet = append(c.Alphabet, event{Kind: "req", Chain: 2, Tx: fmt.Sprintf("0x%064x", i+1)})
+	}
+	c.Alphabet = append(c.Alphabet, event{Kind: "drain", Chain: 2}, event{Kind: "adv", Sec: 1})
+	drain, adv := n, n+1
+	s := newSys(&c)
+	defer s.Close()
+	var hist []int
+	do := func(e int) {
+		hist = append(hist, e)
+		s.Apply(e, hist[len(hist)-1:], true) // violations carry the last event only: the history is the rule above
+	}
+	for i := 0; i < n && !s.dead; i++ {
+		do(i)
+		if i%32 == 31 {
+			do(drain)
+		}
+		if i%500 == 499 {
+			do(adv)
+		}
+	}
+	do(drain)
+	for _, i := range []int{0, 1023, 1024, 1999, n - 1} {
+		if !s.dead {
+			do(i)
+		}
+	}
+	r.Add("volume_requests", len(hist))
 }
 
 func replay(path string) {
